@@ -342,7 +342,7 @@ func (vc *VC) havocAll(st *State) {
 		vc.havocKey(st, k)
 	}
 	na := vc.get(st, vc.allocKey())
-	vc.assumeRaw(fmt.Sprintf("(forall ((r!q Int)) (! (=> (select %s r!q) (select %s r!q)) :pattern ((select %s r!q))))", oldAlloc, na, na))
+	vc.assumeRaw(tLe(oldAlloc, na))
 	for k := range vc.keySort {
 		if strings.HasPrefix(k, "g.calls.") {
 			o := vc.get(st, k)
@@ -425,7 +425,7 @@ func (fr *Frame) applyContract(st *State, ct *Contract, callee *ssa.Function, si
 		// callee may allocate
 		oa := vc.get(st, vc.allocKey())
 		na := vc.havocKey(st, vc.allocKey())
-		vc.assumeRaw(fmt.Sprintf("(forall ((r!q Int)) (! (=> (select %s r!q) (select %s r!q)) :pattern ((select %s r!q))))", oa, na, na))
+		vc.assumeRaw(tLe(oa, na))
 	}
 	res := vc.freshVal("r."+shortCallee(ct.Key), rt)
 	vc.assume(st, vc.wellTyped(st, res))
@@ -678,7 +678,7 @@ func (vc *VC) frameGoalSkip(old, cur *State, ts []modTarget, skip map[string]boo
 		}
 	}
 	oa := vc.get(old, vc.allocKey())
-	allocd := func(r Term) Term { return tOr(tLt(r, "0"), tSel(oa, r)) }
+	allocd := func(r Term) Term { return tLt(r, oa) }
 	for _, k := range allKinds {
 		key := vc.heapKey(k)
 		ho, hn := vc.get(old, key), vc.get(cur, key)
@@ -833,7 +833,7 @@ func (fr *Frame) loopHead(st *State, li *loopInfo) {
 		}
 		if eff.kinds["alloc"] {
 			na := vc.get(st, "alloc")
-			vc.assumeRaw(fmt.Sprintf("(forall ((r!q Int)) (! (=> (select %s r!q) (select %s r!q)) :pattern ((select %s r!q))))", oldAlloc, na, na))
+			vc.assumeRaw(tLe(oldAlloc, na))
 		}
 		// syntactic frame: objects allocated before the loop and not written
 		// by any store of the loop keep their content
